@@ -74,7 +74,7 @@ def write_inputs(case, d: Path):
     return paths
 
 
-def run_impl(case, out_dir: Path, in_dir: Path, mp_context=None, procs=1, paths=None):
+def run_impl(case, out_dir: Path, in_dir: Path, mp_context=None, procs=1, paths=None, max_tasks=1):
     from bblean.multiround import run_multiround_bitbirch
     c = case["cfg"]
     if paths is None:
@@ -89,7 +89,7 @@ def run_impl(case, out_dir: Path, in_dir: Path, mp_context=None, procs=1, paths=
         split_largest_after_each_midsection_round=c["split_after"],
         midsection_merge_criterion=c["mid"], final_merge_criterion=c["final"],
         mp_context=mp_context, save_tree=False, save_centroids=c["save_centroids"],
-        cleanup=c["cleanup"], verbose=False)
+        cleanup=c["cleanup"], verbose=False, max_tasks_per_process=max_tasks)
     return paths
 
 
@@ -191,26 +191,29 @@ def c05_violation(case, ents):
     return None
 
 
-def c09_rounds_violation(ents):
-    """fingerprints grouped together by one round stay together in later rounds unless their
-    cluster is one that a round deliberately splits (the largest of a task)"""
+def c09_rounds_violation(ents, split_after=True):
+    """fingerprints grouped together by one round stay together in the next round (and in the
+    final clusters) unless their cluster is the one a task deliberately splits: then, and only
+    when splitting after midsection rounds is on, ALL its members are singletons of the next round"""
     rounds = {}
     for n, c in ents:
         if c[0] == "idxs":
             r = int(n.split("-")[1])
             rounds.setdefault(r, []).extend(c[1])
     d = dict(ents)
-    last = max(rounds) if rounds else 0
-    seq = [rounds[r] for r in sorted(rounds)]
+    order = sorted(rounds)
+    seq = [(f"round {r}", rounds[r]) for r in order]
     if "clusters.pkl" in d:
-        seq.append(d["clusters.pkl"][1])
-    for a, b in zip(seq[:-1], seq[1:]):
+        seq.append(("final", d["clusters.pkl"][1]))
+    for (na, a), (nb, b) in zip(seq[:-1], seq[1:]):
         where = {i: k for k, c in enumerate(b) for i in c}
-        broken = [c for c in a if len({where.get(i) for i in c}) > 1]
-        # a task may split only its largest cluster: at most one per task; conservative check:
-        # the number of broken clusters is at most the number of index files of that round
-        if len(broken) > max(1, len([1 for n, c in ents if c[0] == "idxs"])):
-            return f"{len(broken)} clusters were separated between two rounds"
+        singles = {c[0] for c in b if len(c) == 1}
+        for c in a:
+            if len({where.get(i) for i in c}) > 1:
+                if nb != "final" and split_after and all(i in singles for i in c):
+                    continue
+                return (f"a cluster of {na} ({len(c)} members, e.g. {c[:6]}) is separated in {nb} although it "
+                        "is not a cluster that was deliberately split")
     return None
 
 
@@ -239,7 +242,7 @@ def suite_mr_files(seed, tier):
         stats["rounds"][c["rounds"]] = stats["rounds"].get(c["rounds"], 0) + 1
         stats["unpacked"] += 0 if c["packed"] else 1
         if ents is not None:
-            v = c05_violation(case, ents) if not c["cleanup"] else c05_violation(case, ents)
+            v = c05_violation(case, ents) or c09_rounds_violation(ents, c["split_after"])
             if v:
                 r.bad.append({"suite": "multiround-files", "what": v, "case": case})
         else:
@@ -358,19 +361,23 @@ def suite_sched(seed, tier):
                     break
             # real pools
             if k < (1 if tier == "quick" else 10):
-                for procs, method in ([(2, "forkserver"), (5, "fork")] if tier == "quick" else
-                                      [(2, "forkserver"), (3, "fork"), (5, "forkserver"), (10, "fork"), (16, "forkserver")]):
+                for procs, method, mt in ([(2, "forkserver", 1), (5, "fork", 3)] if tier == "quick" else
+                                          [(2, "forkserver", 1), (3, "fork", 2), (5, "forkserver", 4), (10, "fork", 1),
+                                           (16, "forkserver", 3), (1, "fork", 5)]):
                     od = tmp / f"p{procs}{method}"
                     od.mkdir()
-                    run_impl(case, od, tmp / "in", mp_context=mp.get_context(method), procs=procs, paths=paths)
+                    run_impl(case, od, tmp / "in", mp_context=mp.get_context(method), procs=procs, paths=paths,
+                             max_tasks=mt)
                     evals += 1
                     if finals(read_dir(od, case["nf"])) != finals(ref):
-                        r.bad.append({"suite": "sched", "what": f"{procs} processes ({method}) give different "
-                                      "final clusters than the serial execution", "case": case})
+                        r.bad.append({"suite": "sched", "what": f"{procs} processes ({method}, {mt} tasks per "
+                                      "process) give different final clusters than the serial execution",
+                                      "case": case})
     r.cases = evals
     r.nontrivial = evals
     r.stats = {"configurations": n_cfg, "orders_per_configuration": n_orders}
-    r.samples = [{"orders": ["reversed", "rotated", "random"], "real_pools": "2/forkserver, 5/fork"}]
+    r.samples = [{"orders": ["reversed", "rotated", "random"],
+                  "real_pools": "processes/start method/max tasks per process: 2/forkserver/1, 5/fork/3 (quick)"}]
     return r
 
 
@@ -538,11 +545,44 @@ def suite_crash(seed, tier):
 
 
 # ------------------------------------------------------------------ search / replay
+def big_cluster_cases(rng):
+    """workflows in which one cluster crosses a counter-width boundary (255 -> uint16 buffers,
+    65535 -> uint32 buffers) at a hand-off between rounds; only used by the search"""
+    out = []
+    for group in (300, 65536 + rng.randrange(0, 40)):
+        nf = 16
+        base = [rng.random() < 0.5 for _ in range(nf)]
+        base[0] = True
+        others, _ = hist.gen_fps(rng, 40, nf, None, 0.3)
+        files = [others[:13], [list(map(int, base))] * group + others[13:20], others[20:]]
+        cfg = {"bf": 50, "thr": 0.65, "change": 0.0, "tol": 0.05, "init": "diameter", "mid": "diameter",
+               "final": None, "rounds": 1, "bin": 2, "refine": "none", "split_after": False,
+               "save_centroids": True, "cleanup": False, "packed": True}
+        out.append({"nf": nf, "files": files, "cfg": cfg})
+    return out
+
+
 def search_mr(which):
     def search(seed, tier, failures):
         for kind, d in failures:
             if isinstance(d, dict) and "what" in d and "Model/" not in d["what"]:
                 return {"violation": d["what"], **{k: v for k, v in d.items() if k not in ("what", "suite")}}
+        if which == "C05":
+            for case in big_cluster_cases(random.Random(seed)):
+                with tempfile.TemporaryDirectory(prefix="verif_mrbig_") as tmp:
+                    tmp = Path(tmp)
+                    (tmp / "in").mkdir()
+                    (tmp / "out").mkdir()
+                    try:
+                        run_impl(case, tmp / "out", tmp / "in")
+                        v = c05_violation(case, read_dir(tmp / "out", case["nf"]))
+                    except Exception as e:
+                        v = f"the workflow failed: {type(e).__name__}: {e}"[:200]
+                if v:
+                    small = {**case, "files": [[list(r) for r in f[:3]] + ["... %d rows" % len(f)]
+                                               for f in case["files"]]}
+                    return {"violation": v, "big_cluster_seed": seed, "group_size": max(len(f) for f in case["files"]),
+                            "case_summary": small}
         suites = {"C05": [suite_mr_files], "C06": [suite_sched], "C14": [suite_crash]}[which]
         for s in suites:
             rr = s(seed + 1, "quick")
@@ -556,6 +596,19 @@ def search_mr(which):
 def replay_mr(which):
     def replay(payload):
         fi = payload.get("failing_input")
+        if fi and "big_cluster_seed" in fi:
+            for case in big_cluster_cases(random.Random(fi["big_cluster_seed"])):
+                with tempfile.TemporaryDirectory(prefix="verif_mrbig_") as tmp:
+                    tmp = Path(tmp)
+                    (tmp / "in").mkdir()
+                    (tmp / "out").mkdir()
+                    try:
+                        run_impl(case, tmp / "out", tmp / "in")
+                    except Exception:
+                        return False
+                    if c05_violation(case, read_dir(tmp / "out", case["nf"])):
+                        return False
+            return True
         if not fi or "case" not in fi:
             return True
         case = fi["case"]
@@ -567,8 +620,58 @@ def replay_mr(which):
                 run_impl({**case, "cfg": {**case["cfg"], "cleanup": False}}, tmp / "out", tmp / "in")
             except Exception:
                 return False
-            return c05_violation(case, read_dir(tmp / "out", case["nf"])) is None
+            ents = read_dir(tmp / "out", case["nf"])
+            return c05_violation(case, ents) is None and \
+                c09_rounds_violation(ents, case["cfg"]["split_after"]) is None
     return replay
+
+
+def replay_c06(payload):
+    """re-executes the recorded workflow serially and under reversed / rotated / random task orders
+    and two real pools; True = all output directories (final files for real pools) are equal"""
+    import multiprocessing as mp
+    fi = payload.get("failing_input")
+    if not fi or "case" not in fi:
+        return True
+    case = {**fi["case"], "cfg": {**fi["case"]["cfg"], "cleanup": False}}
+    rng = random.Random(12345)
+    with tempfile.TemporaryDirectory(prefix="verif_c06r_") as tmp:
+        tmp = Path(tmp)
+        (tmp / "in").mkdir()
+        paths = write_inputs(case, tmp / "in")
+        (tmp / "ser").mkdir()
+        try:
+            run_impl(case, tmp / "ser", None, paths=paths)
+        except Exception:
+            return False
+        ref = read_dir(tmp / "ser", case["nf"])
+        for o, kind in enumerate(["reversed", "rotated", "random", "random"]):
+            def order_fn(idx, kind=kind):
+                if kind == "reversed":
+                    idx.reverse()
+                elif kind == "rotated":
+                    idx.append(idx.pop(0))
+                else:
+                    rng.shuffle(idx)
+            FakePool.order_fn = staticmethod(order_fn)
+            od = tmp / f"o{o}"
+            od.mkdir()
+            try:
+                run_impl(case, od, None, mp_context=FakeCtx, procs=3, paths=paths)
+            except Exception:
+                return False
+            if read_dir(od, case["nf"]) != ref:
+                return False
+        for procs, method in ((2, "forkserver"), (5, "fork")):
+            od = tmp / f"p{procs}"
+            od.mkdir()
+            try:
+                run_impl(case, od, None, mp_context=mp.get_context(method), procs=procs, paths=paths)
+            except Exception:
+                return False
+            if finals(read_dir(od, case["nf"])) != finals(ref):
+                return False
+    return True
 
 
 def replay_c14(payload):
